@@ -15,7 +15,7 @@
     value of the flags they depend on; a guard is false by definition for the repaired variant.
     What is left of the guard of C03-F6 is the request view without RawPath, which no entry
     point produces for a non-empty path any more (ae6db4f). *)
-From HV Require Import Base.Prelude C03.Model C03.Spec C03.Proofs C03.ProofsTree.
+From HV Require Import Base.Prelude C03.Model C03.Spec C03.Proofs C03.ProofsTree C03.ProofsAdd C03.ProofsSpec.
 Open Scope list_scope.
 Open Scope string_scope.
 
@@ -134,6 +134,63 @@ Theorem C03_F8_pinned_refuted :
     spec_captures sl names segs = Some sc /\ caps <> sc.
 Proof. exact F8_refuted. Qed.
 Print Assumptions C03_F8_pinned_refuted.
+
+(** the lookup tree hands the matcher of a route the wildcard names that route declares and the
+    segments its wildcards match (free wildcard included) — at every matcher call of every
+    lookup, for all rule sets loaded by [Add] (any number of rules and routes, any insertion
+    order, prefix splitting included), all engines and all requests.  [call_sees_route]: for
+    the route [s] the call is made for, if its expression matches the request path with the
+    segments [segs] then [k_keys k = declared_names (sr_tokens s)] and [k_vals k = segs]. *)
+Theorem C03_matcher_sees_route_keys : forall fx1 fx4 fx6 fx7 eng ds es t q,
+  load true fx4 ds = Loaded es t ->
+  forall k, In k (snd (serve fx1 true true fx6 fx7 eng es t q)) ->
+    call_sees_route (flat_routes 0 ds) q k.
+Proof. exact matcher_sees_route_keys. Qed.
+Print Assumptions C03_matcher_sees_route_keys.
+
+(** end to end: every matcher call made for a route whose expression matches the request path
+    answers exactly scheme && method && any-host && all path_params on the decoded segments
+    ([spec_answer]), outside the finding guards of the variant *)
+Theorem C03_lookup_answers_as_documented : forall fx1 fx4 fx6 fx7 eng ds es t q,
+  load true fx4 ds = Loaded es t ->
+  forall k, In k (snd (serve fx1 true true fx6 fx7 eng es t q)) ->
+  forall s segs, nth_error (flat_routes 0 ds) (k_vid k) = Some s -> sr_segs s q = Some segs ->
+    Forall valid_enc segs -> Forall (from_path q) segs ->
+    route_guards fx1 fx4 fx6 fx7 eng s q segs = false ->
+    k_res k = spec_answer eng s q segs.
+Proof. exact lookup_answers_spec. Qed.
+Print Assumptions C03_lookup_answers_as_documented.
+
+(** the same for the tree as it is now (every finding repaired) and a request view with a validly
+    encoded RawPath, which is what all entry points produce: no guard is left *)
+Theorem C03_lookup_answers_as_documented_now : forall eng ds es t q,
+  load true true ds = Loaded es t ->
+  String.eqb (q_rawpath q) "" = false -> valid_enc (q_rawpath q) ->
+  forall k, In k (snd (serve true true true true D8 eng es t q)) ->
+  forall s segs, nth_error (flat_routes 0 ds) (k_vid k) = Some s -> sr_segs s q = Some segs ->
+    k_res k = spec_answer eng s q segs.
+Proof. exact lookup_answers_spec_now. Qed.
+Print Assumptions C03_lookup_answers_as_documented_now.
+
+(** no request makes the lookup of a loaded rule set panic: keys and values handed to a matcher
+    always have the same length, and the entry returned has a name for every value (contrast:
+    [C03_F5_pinned_panic_refuted]) *)
+Theorem C03_lookup_no_panic : forall fx1 fx4 fx6 fx7 eng ds es t q,
+  load true fx4 ds = Loaded es t -> fst (serve fx1 true true fx6 fx7 eng es t q) <> OPanic.
+Proof. exact lookup_no_panic. Qed.
+Print Assumptions C03_lookup_no_panic.
+
+(** the entry returned belongs to a route of the rule set, and if that route's expression
+    matches the request path with the segments [segs], the captures are what Execute makes of
+    exactly the named segments (then [C03_captures_exact] applies) *)
+Theorem C03_lookup_entry : forall fx1 fx4 fx6 fx7 eng ds es t q r caps rej cs,
+  load true fx4 ds = Loaded es t ->
+  serve fx1 true true fx6 fx7 eng es t q = (ORule r caps rej, cs) ->
+  exists v s, nth_error (flat_routes 0 ds) v = Some s /\ sr_rule s = r /\
+    forall segs, sr_segs s q = Some segs ->
+      execute fx7 (rl_slash (sr_def s)) q (map_of (named_pairs (declared_names (sr_tokens s)) segs)) = (caps, rej).
+Proof. exact lookup_entry. Qed.
+Print Assumptions C03_lookup_entry.
 
 (** the tree-side findings, on loaded rule sets *)
 Theorem C03_F2_pinned_refuted :
